@@ -17,7 +17,7 @@ import time
 HERE = os.path.dirname(os.path.dirname(os.path.abspath(__file__)))
 VENV_PY = "/venv/bin/python"
 CONTRACT_MODULES = ["contracts.list_of_dicts", "contracts.io", "contracts.aggregate", "contracts.data_frame",
-                    "contracts.vector", "contracts.geojson", "contracts.dtregex", "contracts.deco"]
+                    "contracts.vector", "contracts.construct", "contracts.geojson", "contracts.dtregex", "contracts.deco"]
 
 
 def load_contracts():
@@ -157,6 +157,9 @@ def main(argv=None):
     need = sorted({r.contract for r, o in failing} | {r.contract for r, _ in undecided}
                   | {c.name() for _, c in mine if getattr(c, "always_bounded", False)})
     bounded_targets = [c.name() for _, c in mine] if tier == "thorough" else need
+    from pyvc.contract import BOUNDED_ONLY
+    bounded_only_names = sorted(BOUNDED_ONLY.get(prop, {}))
+    bounded_targets = list(bounded_targets) + [n for n in bounded_only_names if n not in bounded_targets]
     bounded = {}
     if bounded_targets:
         bounded = run_bounded(prop, bounded_targets, repo, tier, seed)
@@ -190,6 +193,8 @@ def main(argv=None):
 
     def match_known(contract, obname, case, witness=None):
         for k in known:
+            if k.get("clause_regex"):
+                continue        # identifies failures of a bounded run-time contract by clause only (handled above)
             if k.get("contract") == contract and (k.get("obligation") in (None, obname)) and \
                     (k.get("case") in (None, case)):
                 return k
@@ -294,6 +299,7 @@ def main(argv=None):
             "known_finding_obligations": sum(1 for k_, r_, o_ in known_hits if r_ is not None),
             "undecided": undecided_names,
             "bounded_stand_ins": bounded_summary,
+            "bounded_only_no_deductive_contract": BOUNDED_ONLY.get(prop, {}),
             "samples": samples,
             "backends": backends,
             "solver_s": round(sum(r.solver_time for r in results), 2),
